@@ -1463,9 +1463,10 @@ func main() {
 			hexs := wb(bt.bytes)
 			emit(fmt.Sprintf("wire fetch/recordset/%s/hidectl %s%s", desc, hexs, zs), canonList(fetchRecordSet(bt.bytes, i%3)))
 			emit(fmt.Sprintf("wire fetch/client/%s/hidectl %s%s", desc, hexs, zs), canonList(fetchClient(bt.bytes, base)))
-			if !bt.ctl {
+			{
+				// control batches too: the Conn path passes over them since fix 314fa1c
 				fv := []int16{2, 5, 10}[i%3]
-				emit(fmt.Sprintf("wire fetch/conn-v%d/%s/exact %s%s", fv, desc, hexs, zs), canonList(fetchConn(bt.bytes, base, bt.next, fv)))
+				emit(fmt.Sprintf("wire fetch/conn-v%d/%s/hidectl,exact %s%s", fv, desc, hexs, zs), canonList(fetchConn(bt.bytes, base, bt.next, fv)))
 			}
 			// corrupt one entry: nothing of it may be surfaced by the Client.Fetch path
 			if i%2 == 0 {
